@@ -13,7 +13,7 @@ import re
 from fractions import Fraction
 import vlib
 
-PROOF_MODULES = []   # the .vo files of coq/C24 are compiled directly (see the report); not yet in _CoqProject
+PROOF_MODULES = ["C24/DenseFinal.vo", "C24/DenseLDL2.vo", "C24/DenseFF6.vo", "C24/DenseDet3.vo", "C24/DenseBerk.vo", "C24/DenseWitness.vo", "C24/DenseSolve.vo", "C24/DenseOps3.vo", "C24/DenseFFGJ2.vo", "C24/DenseGE2.vo", "C24/DenseGJ2.vo"]
 OBLIGATIONS = [
     "C24/P_add_dense_dense_spec.v",
     "C24/P_elementwise_mul_dense_dense_spec.v",
